@@ -11,7 +11,7 @@ CHECKS = {
         "byte doubling as terminator at full capacity; no derived-length read follows a possibly growing publication or terminator overwrite in any mutator; every defaulted parameter of the member "
         "declarations equals [basic.string]'s; iterator insert/erase/replace mutate for every ordering of valid positions incl. end() and empty ranges; conversions to std::string/streams pass "
         "(data(), size()); the 30 relational overloads and compare_impl realise the 3-way ordering; clamps and offsets use the object the position was validated against; the published length is "
-        "the checked one; cursor + remaining count is invariant in the find loops; traits compare/find over the own buffer end at or before size(); forwarding overloads call their own worker with every parameter.",
+        "the checked one; cursor + remaining count is invariant in the find loops; traits compare/find over the own buffer end at or before size(); forwarding overloads call their own worker with every parameter; the storage classes instantiated for wchar_t/char16_t/char32_t/char access the buffer only through its own element type (no reinterpretation as another non-character type).",
    note="Search results, shifted characters, copy/substr counts and stream extraction are not decided; trusts sa/ceval.py, sa/flow.py and the default-argument table transcribed from [basic.string]."),
  "C02": dict(level="other", design="4.2",
    technique="checks-before-effects path rule with a may-throw summary over the member call graph, guard-dominance (same-object) rule for position offsets and size subtractions by linear entailment, published-equals-checked rule, derived-length-after-publication typestate, exception-type/threshold tables",
